@@ -282,7 +282,7 @@ struct MapDamage : Family {
 			variants.insert(variants.end(), g.begin(), g.end());
 			// wrap templates: log-width >= 32, products that overflow 32 bits, counts near 2^32
 			static const uint64_t LG[] = {16, 20, 24, 28, 30, 31, 32, 33, 40, 63, 64, 255, 0x80000000ull, 0xffffffffull};
-			static const uint64_t HH[] = {1, 2, 3, 0x10, 0x100, 0x1000, 0x1001, 0x10000, 0x10001, 0x100000, 0x80000000ull, 0xffffffffull};
+			static const uint64_t HH[] = {0, 1, 2, 3, 0x10, 0x100, 0x1000, 0x1001, 0x10000, 0x10001, 0x100000, 0x80000000ull, 0xffffffffull};
 			for (uint64_t lg : LG) for (uint64_t hh : HH) { Line l = mkline("damage", "multi"); l.set("f1", "lgW").set("v1", hex64(lg)).set("f2", "H").set("v2", hex64(hh)); variants.push_back(l); }
 			for (uint64_t lg = 0; lg < 32; ++lg) { Line l = mkline("damage", "multi"); l.set("f1", "lgW").set("v1", hex64(lg)).set("f2", "H").set("v2", hex64((1ull << (32 - lg)) + (lg % 3))); variants.push_back(l); }
 			for (size_t gi = 0; gi < m.groups.size(); ++gi) for (const char* val : {"0x10000", "0x10001", "0xffffffff", "0x80000000"}) { Line l = mkline("damage", "multi"); l.set("f1", "g" + std::to_string(gi) + ".w").set("v1", val).set("f2", "g" + std::to_string(gi) + ".h").set("v2", val); variants.push_back(l); }
